@@ -203,6 +203,9 @@ func (c *ValidatorCache) GetBySlot(ctx context.Context, slot uint64) (ActiveVali
 type ProposerDuties struct {
 	sync.RWMutex
 
+	// invalidations counts the reorg invalidations; duties fetched before an invalidation are not stored after it.
+	invalidations uint64
+
 	requestedIdxs map[eth2p0.Epoch][]eth2p0.ValidatorIndex
 	duties        map[eth2p0.Epoch][]eth2v1.ProposerDuty
 	metadata      map[eth2p0.Epoch]map[string]any
@@ -210,6 +213,7 @@ type ProposerDuties struct {
 
 // ProposerDutiesForEpoch is a map of proposer duties for specific epoch.
 type ProposerDutiesForEpoch struct {
+	invalidations uint64 // Value of ProposerDuties.invalidations when the duties were requested from the beacon node.
 	requestedIdxs []eth2p0.ValidatorIndex
 	duties        []eth2v1.ProposerDuty
 	metadata      map[string]any
@@ -219,6 +223,9 @@ type ProposerDutiesForEpoch struct {
 type AttesterDuties struct {
 	sync.RWMutex
 
+	// invalidations counts the reorg invalidations; duties fetched before an invalidation are not stored after it.
+	invalidations uint64
+
 	requestedIdxs map[eth2p0.Epoch][]eth2p0.ValidatorIndex
 	duties        map[eth2p0.Epoch][]eth2v1.AttesterDuty
 	metadata      map[eth2p0.Epoch]map[string]any
@@ -226,6 +233,7 @@ type AttesterDuties struct {
 
 // AttesterDutiesForEpoch is a map of attester duties for specific epoch.
 type AttesterDutiesForEpoch struct {
+	invalidations uint64 // Value of AttesterDuties.invalidations when the duties were requested from the beacon node.
 	requestedIdxs []eth2p0.ValidatorIndex
 	duties        []eth2v1.AttesterDuty
 	metadata      map[string]any
@@ -235,6 +243,9 @@ type AttesterDutiesForEpoch struct {
 type SyncDuties struct {
 	sync.RWMutex
 
+	// invalidations counts the reorg invalidations; duties fetched before an invalidation are not stored after it.
+	invalidations uint64
+
 	requestedIdxs map[eth2p0.Epoch][]eth2p0.ValidatorIndex
 	duties        map[eth2p0.Epoch][]eth2v1.SyncCommitteeDuty
 	metadata      map[eth2p0.Epoch]map[string]any
@@ -242,6 +253,7 @@ type SyncDuties struct {
 
 // SyncDutiesForEpoch is a map of sync committee duties for specific epoch.
 type SyncDutiesForEpoch struct {
+	invalidations uint64 // Value of SyncDuties.invalidations when the duties were requested from the beacon node.
 	requestedIdxs []eth2p0.ValidatorIndex
 	duties        []eth2v1.SyncCommitteeDuty
 	metadata      map[string]any
@@ -428,6 +440,10 @@ func (c *DutiesCache) ProposerDutiesCache(ctx context.Context, epoch eth2p0.Epoc
 		log.Debug(ctx, "Cached proposer duties do not contain all requested validator indices, fetching from beacon node...", z.Any("missing_validator_indices", requestVidxs), z.Any("requested_validator_indices", vidxs))
 	}
 
+	c.proposerDuties.RLock()
+	invalidations := c.proposerDuties.invalidations
+	c.proposerDuties.RUnlock()
+
 	eth2Resp, err := c.eth2Cl.ProposerDuties(ctx, &eth2api.ProposerDutiesOpts{Epoch: epoch, Indices: requestVidxs})
 	if err != nil {
 		return ProposerDutyWithMeta{}, err
@@ -443,7 +459,7 @@ func (c *DutiesCache) ProposerDutiesCache(ctx context.Context, epoch eth2p0.Epoc
 		dutiesDeref = append(dutiesDeref, d)
 	}
 
-	_, ok = c.storeOrAmendProposerDuties(epoch, ProposerDutiesForEpoch{duties: dutiesDeref, metadata: maps.Clone(eth2Resp.Metadata), requestedIdxs: requestVidxs})
+	_, ok = c.storeOrAmendProposerDuties(epoch, ProposerDutiesForEpoch{duties: dutiesDeref, metadata: maps.Clone(eth2Resp.Metadata), requestedIdxs: requestVidxs, invalidations: invalidations})
 	if !ok {
 		log.Debug(ctx, "Failed to cache proposer duties - another routine already cached duties for this epoch, skipping", z.U64("epoch", uint64(epoch)))
 	}
@@ -523,6 +539,10 @@ func (c *DutiesCache) AttesterDutiesCache(ctx context.Context, epoch eth2p0.Epoc
 		log.Debug(ctx, "Cached attester duties do not contain all requested validator indices, fetching from beacon node...", z.Any("missing_validator_indices", requestVidxs), z.Any("requested_validator_indices", vidxs))
 	}
 
+	c.attesterDuties.RLock()
+	invalidations := c.attesterDuties.invalidations
+	c.attesterDuties.RUnlock()
+
 	eth2Resp, err := c.eth2Cl.AttesterDuties(ctx, &eth2api.AttesterDutiesOpts{Epoch: epoch, Indices: requestVidxs})
 	if err != nil {
 		return AttesterDutyWithMeta{}, err
@@ -538,7 +558,7 @@ func (c *DutiesCache) AttesterDutiesCache(ctx context.Context, epoch eth2p0.Epoc
 		dutiesDeref = append(dutiesDeref, d)
 	}
 
-	_, ok = c.storeOrAmendAttesterDuties(epoch, AttesterDutiesForEpoch{duties: dutiesDeref, metadata: maps.Clone(eth2Resp.Metadata), requestedIdxs: requestVidxs})
+	_, ok = c.storeOrAmendAttesterDuties(epoch, AttesterDutiesForEpoch{duties: dutiesDeref, metadata: maps.Clone(eth2Resp.Metadata), requestedIdxs: requestVidxs, invalidations: invalidations})
 	if !ok {
 		log.Debug(ctx, "Failed to cache attester duties - another routine already cached duties for this epoch, skipping", z.U64("epoch", uint64(epoch)))
 	}
@@ -620,6 +640,10 @@ func (c *DutiesCache) SyncCommDutiesCache(ctx context.Context, epoch eth2p0.Epoc
 		log.Debug(ctx, "Cached sync duties do not contain all requested validator indices, fetching from beacon node...", z.Any("missing_validator_indices", requestVidxs), z.Any("requested_validator_indices", vidxs))
 	}
 
+	c.syncDuties.RLock()
+	invalidations := c.syncDuties.invalidations
+	c.syncDuties.RUnlock()
+
 	eth2Resp, err := c.eth2Cl.SyncCommitteeDuties(ctx, &eth2api.SyncCommitteeDutiesOpts{Epoch: epoch, Indices: requestVidxs})
 	if err != nil {
 		return SyncDutyWithMeta{}, err
@@ -636,7 +660,7 @@ func (c *DutiesCache) SyncCommDutiesCache(ctx context.Context, epoch eth2p0.Epoc
 		dutiesDeref = append(dutiesDeref, d)
 	}
 
-	_, ok = c.storeOrAmendSyncDuties(epoch, SyncDutiesForEpoch{duties: dutiesDeref, metadata: maps.Clone(eth2Resp.Metadata), requestedIdxs: requestVidxs})
+	_, ok = c.storeOrAmendSyncDuties(epoch, SyncDutiesForEpoch{duties: dutiesDeref, metadata: maps.Clone(eth2Resp.Metadata), requestedIdxs: requestVidxs, invalidations: invalidations})
 	if !ok {
 		log.Debug(ctx, "Failed to cache sync duties - another routine already cached duties for this epoch, skipping", z.U64("epoch", uint64(epoch)))
 	}
@@ -722,6 +746,11 @@ func (c *DutiesCache) storeOrAmendProposerDuties(epoch eth2p0.Epoch, dutiesForEp
 	c.proposerDuties.Lock()
 	defer c.proposerDuties.Unlock()
 
+	if dutiesForEpoch.invalidations != c.proposerDuties.invalidations {
+		// The cache was invalidated (reorg) while these duties were being fetched, they may predate the reorg.
+		return nil, false
+	}
+
 	alreadySavedDuties, ok := c.proposerDuties.duties[epoch]
 	if !ok {
 		c.proposerDuties.duties[epoch] = dutiesForEpoch.duties
@@ -769,6 +798,11 @@ func (c *DutiesCache) storeOrAmendProposerDuties(epoch eth2p0.Epoch, dutiesForEp
 func (c *DutiesCache) storeOrAmendAttesterDuties(epoch eth2p0.Epoch, dutiesForEpoch AttesterDutiesForEpoch) ([]eth2v1.AttesterDuty, bool) {
 	c.attesterDuties.Lock()
 	defer c.attesterDuties.Unlock()
+
+	if dutiesForEpoch.invalidations != c.attesterDuties.invalidations {
+		// The cache was invalidated (reorg) while these duties were being fetched, they may predate the reorg.
+		return nil, false
+	}
 
 	alreadySavedDuties, ok := c.attesterDuties.duties[epoch]
 	if !ok {
@@ -818,6 +852,11 @@ func (c *DutiesCache) storeOrAmendAttesterDuties(epoch eth2p0.Epoch, dutiesForEp
 func (c *DutiesCache) storeOrAmendSyncDuties(epoch eth2p0.Epoch, dutiesForEpoch SyncDutiesForEpoch) ([]eth2v1.SyncCommitteeDuty, bool) {
 	c.syncDuties.Lock()
 	defer c.syncDuties.Unlock()
+
+	if dutiesForEpoch.invalidations != c.syncDuties.invalidations {
+		// The cache was invalidated (reorg) while these duties were being fetched, they may predate the reorg.
+		return nil, false
+	}
 
 	alreadySavedDuties, ok := c.syncDuties.duties[epoch]
 	if !ok {
@@ -967,6 +1006,8 @@ func (c *DutiesCache) trimAfterProposerDuties(epoch eth2p0.Epoch) bool {
 	c.proposerDuties.Lock()
 	defer c.proposerDuties.Unlock()
 
+	c.proposerDuties.invalidations++
+
 	ok := false
 
 	for k := range c.proposerDuties.duties {
@@ -1001,6 +1042,8 @@ func (c *DutiesCache) trimAfterAttesterDuties(epoch eth2p0.Epoch) bool {
 	c.attesterDuties.Lock()
 	defer c.attesterDuties.Unlock()
 
+	c.attesterDuties.invalidations++
+
 	ok := false
 
 	for k := range c.attesterDuties.duties {
@@ -1034,6 +1077,8 @@ func (c *DutiesCache) trimAfterAttesterDuties(epoch eth2p0.Epoch) bool {
 func (c *DutiesCache) trimAfterSyncDuties(epoch eth2p0.Epoch) bool {
 	c.syncDuties.Lock()
 	defer c.syncDuties.Unlock()
+
+	c.syncDuties.invalidations++
 
 	ok := false
 
